@@ -641,19 +641,8 @@ func (an *lmAn) cl0(v ssa.Value, fr *lmFrame) *lmVal {
 			return lmUnk
 		}
 		if g := ir.Callee(call.Call); g != nil {
-			if x.Index == 0 && lmLoadLike(an.c, g) {
-				hasM, hasR := false, false
-				for _, a := range call.Call.Args {
-					switch an.cl(a, fr).k {
-					case lmMast:
-						hasM = true
-					case lmRootLink:
-						hasR = true
-					}
-				}
-				if hasM && hasR {
-					return &lmVal{k: lmNode, call: call}
-				}
+			if x.Index == 0 && an.isRootLoad(call, fr, 0) {
+				return &lmVal{k: lmNode, call: call}
 			}
 			return lmUnk
 		}
@@ -1075,16 +1064,7 @@ func (an *lmAn) walk(fr *lmFrame) {
 			case *ssa.Call:
 				if g := ir.Callee(x.Call); g != nil {
 					if lmLoadLike(an.c, g) {
-						hasM, hasR := false, false
-						for _, a := range x.Call.Args {
-							switch an.cl(a, fr).k {
-							case lmMast:
-								hasM = true
-							case lmRootLink:
-								hasR = true
-							}
-						}
-						if hasM && hasR {
+						if an.isRootLoad(x, fr, 0) {
 							an.nodeCalls = append(an.nodeCalls, x)
 						}
 						continue
@@ -1474,6 +1454,7 @@ func runROOTCLAUSES(c *Ctx) {
 		}
 	}
 
+	lmCheckListRepairs(c, an)
 	for clause := 1; clause <= 4; clause++ {
 		name := lmClauseName[clause]
 		construct := "clause " + name
@@ -2143,6 +2124,7 @@ type lmLoader struct {
 	opaque []string         // node sources the rule cannot follow: nothing is assumed
 	seeded int
 	cands  []*lmCand // the gated candidates of the decoding path (for ROOTEXACT)
+	frs    []*lmFrame
 }
 
 // loaderOf analyses the load primitive called at nc (and the loaders it
@@ -2186,6 +2168,7 @@ func (an *lmAn) loaderOf(nc *ssa.Call) *lmLoader {
 				for _, cd := range sub.cands {
 					sub.gate(cd)
 					L.cands = append(L.cands, cd)
+					L.frs = sub.frs
 					if cd.clause != 1 && cd.clause != 2 && cd.clause != 5 {
 						continue
 					}
@@ -3045,13 +3028,53 @@ func runROOTEXACT(c *Ctx) {
 	}
 	// (3) LoadMast's own body and its helpers
 	lmCheckRegion(c, lm, vals)
-	// (2) every other purely rejecting branch tests an error a callee returned
-	seenFn := map[*ssa.Function]bool{}
+	// (2) every other purely rejecting branch of the validator and of every
+	// function on the load path is a listed rejection
+	frameOf := map[*ssa.Function]*lmFrame{}
+	var fnsAll []*ssa.Function
+	addFn := func(fn *ssa.Function, fr *lmFrame) {
+		if _, ok := frameOf[fn]; !ok {
+			frameOf[fn] = fr
+			fnsAll = append(fnsAll, fn)
+		} else if frameOf[fn] == nil && fr != nil {
+			frameOf[fn] = fr
+		}
+	}
 	for _, fr := range frames {
-		if seenFn[fr.fn] || ir.ErrorResultIndex(fr.fn.Signature) < 0 {
+		addFn(fr.fn, fr)
+	}
+	for _, nc := range an.nodeCalls {
+		for _, fr := range an.loaderOf(nc).frs {
+			addFn(fr.fn, fr)
+		}
+		if g := ir.Callee(nc.Call); g != nil {
+			for _, fn := range lmStaticLoadPath(c, g) {
+				addFn(fn, nil)
+			}
+		}
+	}
+	purelyRej := func(b *ssa.BasicBlock) bool {
+		k, _ := lpRejects(P, b)
+		if k != lpErrNonNil {
+			return false
+		}
+		for x := range ir.ReachableFrom(b, nil) {
+			if len(x.Instrs) > 0 {
+				if _, ok := x.Instrs[len(x.Instrs)-1].(*ssa.Return); ok {
+					return true
+				}
+			}
+		}
+		return false
+	}
+	for _, fn0 := range fnsAll {
+		fr := frameOf[fn0]
+		if fr == nil {
+			fr = &lmFrame{fn: fn0, env: map[*ssa.Parameter]*lmVal{}}
+		}
+		if ir.ErrorResultIndex(fr.fn.Signature) < 0 {
 			continue
 		}
-		seenFn[fr.fn] = true
 		for _, b := range fr.fn.Blocks {
 			if len(b.Instrs) == 0 || len(b.Succs) != 2 || b.Succs[0] == b.Succs[1] {
 				continue
@@ -3063,10 +3086,13 @@ func runROOTEXACT(c *Ctx) {
 			if _, known := ir.ConstBool(iff.Cond); known {
 				continue
 			}
-			r0, _ := lpRejects(P, b.Succs[0])
-			r1, _ := lpRejects(P, b.Succs[1])
-			if (r0 == lpErrNonNil) == (r1 == lpErrNonNil) {
+			p0, p1 := purelyRej(b.Succs[0]), purelyRej(b.Succs[1])
+			if p0 == p1 {
 				continue // not a branch one side of which only rejects
+			}
+			r0 := lpErrNil
+			if p0 {
+				r0 = lpErrNonNil
 			}
 			pos := P.InstrPos(iff)
 			if tv, _, ok := ir.NilTest(iff.Cond); ok && ir.IsErrorType(tv.Type()) {
@@ -3089,8 +3115,19 @@ func runROOTEXACT(c *Ctx) {
 					continue
 				}
 			}
-			c.Undecided(fr.fn, pos, "rejecting branch `"+lpDescCond(iff.Cond, r0 == lpErrNonNil)+"`",
-				"the root check rejects on a condition that is neither a callee's error nor a comparison over the value classes of a C19 clause; whether it refuses conforming roots is not decided")
+			rej := 0
+			if !p0 {
+				rej = 1
+			}
+			verdict, construct, why := lmJudgeDecoderBranch(P, iff, rej, purelyRej)
+			switch verdict {
+			case lmDecOK:
+				c.OK(pos, fmt.Sprintf("rejecting branch `%s` in %s", construct, ir.FuncName(fr.fn)), why, false)
+			case lmDecViolation:
+				c.Violation(fr.fn, pos, construct, why)
+			default:
+				c.Undecided(fr.fn, pos, construct, why)
+			}
 		}
 	}
 }
@@ -3795,4 +3832,463 @@ func runDECODEGUARD(c *Ctx) {
 			}
 		}
 	}
+}
+
+// isRootLoad: call loads the node named by the validated Mast's root field —
+// the load primitive applied to (Mast, load of Mast.root), or a private helper
+// on that Mast whose every return hands back the results of such a call.
+func (an *lmAn) isRootLoad(call *ssa.Call, fr *lmFrame, depth int) bool {
+	g := ir.Callee(call.Call)
+	if g == nil || !lmLoadLike(an.c, g) {
+		return false
+	}
+	hasM, hasR := false, false
+	env := map[*ssa.Parameter]*lmVal{}
+	for i, a := range call.Call.Args {
+		switch an.cl(a, fr).k {
+		case lmMast:
+			hasM = true
+			if i < len(g.Params) {
+				env[g.Params[i]] = &lmVal{k: lmMast}
+			}
+		case lmRootLink:
+			hasR = true
+		}
+	}
+	if hasM && hasR {
+		return true
+	}
+	if !hasM || depth >= 2 || g.Blocks == nil {
+		return false
+	}
+	sub := &lmFrame{fn: g, env: env, parent: fr, site: call, depth: fr.depth + 1}
+	rets := ir.Returns(g)
+	if len(rets) == 0 {
+		return false
+	}
+	for _, r := range rets {
+		if len(r.Results) != 2 {
+			return false
+		}
+		e0, ok0 := r.Results[0].(*ssa.Extract)
+		e1, ok1 := r.Results[1].(*ssa.Extract)
+		if !ok0 || !ok1 || e0.Tuple != e1.Tuple || e0.Index != 0 || e1.Index != 1 {
+			return false
+		}
+		inner, ok := e0.Tuple.(*ssa.Call)
+		if !ok || !an.isRootLoad(inner, sub, depth+1) {
+			return false
+		}
+	}
+	return true
+}
+
+// ---- ROOTEXACT: rejections of the decoders on the load path ------------------------
+//
+// Every function the load primitive reaches by static calls (loadPersisted, the
+// format dispatcher, the v1 and binary decoders, the node check) may refuse a
+// stored node only for a listed reason: a callee's error; a failed type
+// assertion; an unusable configuration (a nil-tested configuration field,
+// alone or as the type-witness guard whose exactness DECODEGUARD decides); an
+// unknown node format; a count mismatch between two of the node's three lists
+// (exactly ≠, whether the lists are the node's or the decoded intermediate's);
+// byte-level malformedness (a guard over buffer lengths and decoded integers
+// only: CODECSYM / DECODEBOUNDS own those). A rejection on the number of keys,
+// values or links alone is a violation; anything else over node data is
+// undecided.
+
+// lmListLen: v is len(X.F)+off with F one of Key/Value/Link; returns the
+// symbolic path of X and F.
+func lmListLen(v ssa.Value) (base, field string, off int64, ok bool) {
+	v = ir.ResolveCell(v)
+	if b, isB := v.(*ssa.BinOp); isB && (b.Op == token.ADD || b.Op == token.SUB) {
+		if n, isC := lmConstInt(b.Y); isC {
+			if bs, f, o, ok := lmListLen(b.X); ok {
+				if b.Op == token.SUB {
+					n = -n
+				}
+				return bs, f, o + n, true
+			}
+		}
+		return "", "", 0, false
+	}
+	call, isC := v.(*ssa.Call)
+	if !isC {
+		return "", "", 0, false
+	}
+	if bi, isB := call.Call.Value.(*ssa.Builtin); !isB || bi.Name() != "len" || len(call.Call.Args) != 1 {
+		return "", "", 0, false
+	}
+	u, isU := ir.ResolveCell(call.Call.Args[0]).(*ssa.UnOp)
+	if !isU || u.Op != token.MUL {
+		return "", "", 0, false
+	}
+	fa, isF := u.X.(*ssa.FieldAddr)
+	if !isF {
+		return "", "", 0, false
+	}
+	f := ir.FieldName(fa.X.Type(), fa.Field)
+	if f != "Key" && f != "Value" && f != "Link" {
+		return "", "", 0, false
+	}
+	return ir.Sym(fa.X), f, off, true
+}
+
+// lmBytesOnly: every operand of v is a constant, the length of a byte slice or
+// string, a decoded integer (result of encoding/binary, an int cell a decode
+// helper fills), an int or []byte parameter.
+func lmBytesOnly(v ssa.Value) bool {
+	seen := map[ssa.Value]bool{}
+	var ok func(v ssa.Value, d int) bool
+	isBytes := func(t types.Type) bool {
+		switch u := t.Underlying().(type) {
+		case *types.Slice:
+			b, isB := u.Elem().Underlying().(*types.Basic)
+			return isB && b.Kind() == types.Uint8
+		case *types.Basic:
+			return u.Info()&types.IsString != 0
+		case *types.Pointer:
+			if s, isS := u.Elem().Underlying().(*types.Slice); isS {
+				b, isB := s.Elem().Underlying().(*types.Basic)
+				return isB && b.Kind() == types.Uint8
+			}
+		}
+		return false
+	}
+	ok = func(v ssa.Value, d int) bool {
+		if seen[v] || d > 12 {
+			return true
+		}
+		seen[v] = true
+		switch x := v.(type) {
+		case *ssa.Const:
+			return true
+		case *ssa.Parameter:
+			return lmIsInt(x.Type()) || isBytes(x.Type())
+		case *ssa.Alloc:
+			p, _ := x.Type().Underlying().(*types.Pointer)
+			return p != nil && (lmIsInt(p.Elem()) || isBytes(p.Elem()))
+		case *ssa.Call:
+			if bi, isB := x.Call.Value.(*ssa.Builtin); isB && (bi.Name() == "len" || bi.Name() == "cap") && len(x.Call.Args) == 1 {
+				return isBytes(x.Call.Args[0].Type())
+			}
+			if sc := ir.Callee(x.Call); sc != nil && sc.Pkg != nil && sc.Pkg.Pkg.Path() == "encoding/binary" {
+				return true
+			}
+			return false
+		case *ssa.Extract:
+			return ok(x.Tuple, d+1)
+		case *ssa.UnOp:
+			return ok(x.X, d+1)
+		case *ssa.BinOp:
+			return ok(x.X, d+1) && ok(x.Y, d+1)
+		case *ssa.Convert:
+			return ok(x.X, d+1)
+		case *ssa.Phi:
+			for _, e := range x.Edges {
+				if !ok(e, d+1) {
+					return false
+				}
+			}
+			return true
+		case *ssa.Slice:
+			return isBytes(x.Type())
+		case *ssa.IndexAddr:
+			return isBytes(x.X.Type()) // a byte of the buffer
+		}
+		return false
+	}
+	return ok(v, 0)
+}
+
+const (
+	lmDecOK = iota
+	lmDecViolation
+	lmDecUndecided
+)
+
+// lmIsCfgNilTest: cond is a nil test of a Mast configuration field (or of the
+// reflect type of one).
+func lmIsCfgNilTest(cond ssa.Value) bool {
+	tv, _, ok := ir.NilTest(cond)
+	if !ok {
+		return false
+	}
+	if lmCfgField(tv) != nil {
+		return true
+	}
+	if call, isC := ir.ResolveCell(tv).(*ssa.Call); isC && lmIsExt(call, "reflect.TypeOf") && len(call.Call.Args) == 1 {
+		return lmCfgField(call.Call.Args[0]) != nil
+	}
+	return false
+}
+
+// lmJudgeDecoderBranch classifies the rejecting branch iff (rejecting successor
+// rej) of a decoder.
+func lmJudgeDecoderBranch(P *ir.Program, iff *ssa.If, rej int, purely func(*ssa.BasicBlock) bool) (int, string, string) {
+	b := iff.Block()
+	cond := iff.Cond
+	truth := rej == 0
+	text := lpDescCond(cond, truth)
+	// the conditions that control the rejection
+	conds := []ssa.Value{cond}
+	for _, fc := range ir.FactsAt(b) {
+		other := fc.From.Succs[0]
+		if fc.Truth {
+			other = fc.From.Succs[1]
+		}
+		if purely(other) || ir.CanReach(other, b) {
+			continue
+		}
+		conds = append(conds, fc.Cond)
+	}
+	for _, cd := range conds {
+		if lmIsCfgNilTest(cd) {
+			return lmDecOK, text, "guarded by a nil test of a configuration field: an unusable configuration (the exact form of a type-witness guard is DECODEGUARD's)"
+		}
+	}
+	for {
+		u, ok := cond.(*ssa.UnOp)
+		if !ok || u.Op != token.NOT {
+			break
+		}
+		truth = !truth
+		cond = u.X
+	}
+	// a nil link handed to the load primitive: not a link, like the default of its type switch
+	if tv, _, ok := ir.NilTest(cond); ok {
+		if p, isP := ir.ResolveCell(tv).(*ssa.Parameter); isP && types.IsInterface(p.Type()) && !ir.IsErrorType(p.Type()) {
+			return lmDecOK, text, "the value handed in is not a link (nil)"
+		}
+	}
+	// a failed type assertion
+	if ex, ok := cond.(*ssa.Extract); ok {
+		if ta, ok := ex.Tuple.(*ssa.TypeAssert); ok && ta.CommaOk && ex.Index == 1 {
+			return lmDecOK, text, "a failed type assertion of a decoded value"
+		}
+	}
+	bin, ok := cond.(*ssa.BinOp)
+	if ok && lpNegOp(bin.Op) != token.ILLEGAL {
+		op := bin.Op
+		if !truth {
+			op = lpNegOp(op)
+		}
+		bx, fx, ox, lx := lmListLen(bin.X)
+		by, fy, oy, ly := lmListLen(bin.Y)
+		if lx && ly && bx == by {
+			// count mismatch between two lists of one node
+			clause, at := 0, lmAtom{}
+			switch {
+			case fx == "Key" && fy == "Value":
+				clause, at = 1, lmAtom{op, oy - ox}
+			case fx == "Value" && fy == "Key":
+				clause, at = 1, lmAtom{lpFlipOp(op), ox - oy}
+			case fx == "Link" && fy == "Key":
+				clause, at = 2, lmAtom{op, oy - ox}
+			case fx == "Key" && fy == "Link":
+				clause, at = 2, lmAtom{lpFlipOp(op), ox - oy}
+			case fx == "Link" && fy == "Value":
+				clause, at = 5, lmAtom{op, oy - ox}
+			case fx == "Value" && fy == "Link":
+				clause, at = 5, lmAtom{lpFlipOp(op), ox - oy}
+			}
+			if clause != 0 {
+				if over, x := lmOverRejects(clause, at); over {
+					return lmDecViolation, "stronger than a count clause: " + text,
+						fmt.Sprintf("the decoder rejects when `%s`, which also holds for %s: a conforming stored node cannot be loaded", text, lmOverText(clause, x))
+				}
+				return lmDecOK, text, "a count mismatch between two lists of the node, exactly ≠"
+			}
+		}
+		isCx := !lx && !lmTouchesNode(bin.X)
+		isCy := !ly && !lmTouchesNode(bin.Y)
+		if (lx && isCy) || (ly && isCx) {
+			f := fx
+			if ly {
+				f = fy
+			}
+			return lmDecViolation, "rejects on " + text,
+				fmt.Sprintf("the decoder refuses a stored node when `%s`: a condition on the number of %s entries alone, which no listed rejection covers (key-less pass-through nodes and nodes of any width are legal): a node the writer stored cannot be loaded", text, f)
+		}
+		if _, isNil := bin.Y.(*ssa.Const); isNil || true {
+			// format comparison: m.nodeFormat against the known formats
+			for _, side := range []ssa.Value{bin.X, bin.Y} {
+				if u, ok := ir.ResolveCell(side).(*ssa.UnOp); ok && u.Op == token.MUL {
+					if fa, ok := u.X.(*ssa.FieldAddr); ok && lpIsMastPtr(fa.X.Type()) && ir.FieldName(fa.X.Type(), fa.Field) == "nodeFormat" {
+						return lmDecOK, text, "the recorded node format is not a known one"
+					}
+				}
+			}
+		}
+		if lmBytesOnly(bin.X) && lmBytesOnly(bin.Y) {
+			return lmDecOK, text, "byte-level malformedness (buffer lengths and decoded integers only): CODECSYM / DECODEBOUNDS"
+		}
+	}
+	return lmDecUndecided, "rejecting branch `" + text + "`",
+		"the load path rejects a stored node on a condition that is none of the listed rejections (callee error, failed type assertion, unusable configuration, unknown format, count mismatch between two lists, byte-level malformedness); whether it refuses nodes the writer stored is not decided"
+}
+
+// lmStaticLoadPath: the functions reached from fn by static calls (closures
+// called directly included), never through callbacks.
+func lmStaticLoadPath(c *Ctx, from *ssa.Function) []*ssa.Function {
+	seen := map[*ssa.Function]bool{from: true}
+	order := []*ssa.Function{from}
+	for i := 0; i < len(order); i++ {
+		for _, ci := range CallsOf(order[i]) {
+			g := ir.Callee(*ci.Common())
+			if g == nil || !isOwn(c.P, g) || g.Blocks == nil || seen[g] {
+				continue
+			}
+			seen[g] = true
+			order = append(order, g)
+		}
+	}
+	return order
+}
+
+// lmCheckListRepairs (ROOTCLAUSES): between decoding and the node check the
+// load path must not repair a node's lists, or a count mismatch disappears
+// before it can be rejected. A store to Key/Value/Link of a node in a function
+// the load primitive reaches statically may only materialise an absent list
+// (a made slice, unreachable when the list already has elements); extending a
+// list with append, or replacing a non-empty one, is a violation.
+func lmCheckListRepairs(c *Ctx, an *lmAn) {
+	P := c.P
+	seen := map[*ssa.Function]bool{}
+	for _, nc := range an.nodeCalls {
+		g := ir.Callee(nc.Call)
+		if g == nil {
+			continue
+		}
+		for _, fn := range lmStaticLoadPath(c, g) {
+			if seen[fn] {
+				continue
+			}
+			seen[fn] = true
+			for _, b := range fn.Blocks {
+				for _, ins := range b.Instrs {
+					st, ok := ins.(*ssa.Store)
+					if !ok {
+						continue
+					}
+					fa, ok := st.Addr.(*ssa.FieldAddr)
+					if !ok || !ir.IsPtrToNamed(fa.X.Type(), "Node") {
+						continue
+					}
+					f := ir.FieldName(fa.X.Type(), fa.Field)
+					if f != "Key" && f != "Value" && f != "Link" {
+						continue
+					}
+					// a composite literal under construction is not a decoded node
+					var root ssa.Value = fa.X
+					for {
+						if in, ok := root.(*ssa.FieldAddr); ok {
+							root = in.X
+							continue
+						}
+						break
+					}
+					if a, isA := root.(*ssa.Alloc); isA && (a.Comment == "complit" || strings.HasPrefix(a.Comment, "complit")) {
+						continue
+					}
+					// only a node that was decoded into before: a decoder that
+					// builds the node's lists from an intermediate constructs, not repairs
+					decodedInto := false
+					for _, ci := range CallsOf(fn) {
+						if !ir.Before(ci, st) {
+							continue
+						}
+						for _, a := range ci.Common().Args {
+							av := ir.Strip(a)
+							for i := 0; i < 4; i++ {
+								if in, ok := av.(*ssa.FieldAddr); ok {
+									av = in.X
+									continue
+								}
+								break
+							}
+							if av == root {
+								decodedInto = true
+							}
+						}
+					}
+					if !decodedInto {
+						continue
+					}
+					pos := P.InstrPos(st)
+					what := fmt.Sprintf("store to %s of a node in %s", f, ir.FuncName(fn))
+					construct := "repairs " + f + " of a decoded node"
+					if call, isC := st.Val.(*ssa.Call); isC {
+						if bi, isB := call.Call.Value.(*ssa.Builtin); isB && bi.Name() == "append" {
+							c.Violation(fn, pos, construct, fmt.Sprintf("%s extends the %s list of a node on the load path with append: a stored node with too few %s entries is padded instead of being rejected for its mismatched counts", ir.FuncName(fn), f, f))
+							continue
+						}
+					}
+					if !lmFreshSlice(st.Val, 0) {
+						c.Undecided(fn, pos, construct, fmt.Sprintf("%s replaces the %s list of a node on the load path by a value the rule does not classify", ir.FuncName(fn), f))
+						continue
+					}
+					V := &lmValuation{lenSym: "*" + ir.Sym(fa), lo: 1, hi: -1}
+					if V.reach(fn, nil)[b] {
+						c.Violation(fn, pos, construct, fmt.Sprintf("%s replaces the %s list of a node on the load path although it may already hold entries: decoded data is overwritten before the count check", ir.FuncName(fn), f))
+					} else {
+						c.OK(pos, what, "only an absent (empty) list is materialised; a list with entries reaches the count check unchanged", false)
+					}
+				}
+			}
+		}
+	}
+}
+
+// lmTouchesNode: does v depend on the lists of a node (or of a decoded
+// intermediate with Key/Value/Link fields)?
+func lmTouchesNode(v ssa.Value) bool {
+	seen := map[ssa.Value]bool{}
+	var walk func(v ssa.Value, d int) bool
+	walk = func(v ssa.Value, d int) bool {
+		if v == nil || seen[v] || d > 12 {
+			return false
+		}
+		seen[v] = true
+		if fa, ok := v.(*ssa.FieldAddr); ok {
+			switch ir.FieldName(fa.X.Type(), fa.Field) {
+			case "Key", "Value", "Link":
+				return true
+			}
+		}
+		if ins, ok := v.(ssa.Instruction); ok {
+			for _, op := range ins.Operands(nil) {
+				if op != nil && *op != nil && walk(*op, d+1) {
+					return true
+				}
+			}
+		}
+		return false
+	}
+	return walk(v, 0)
+}
+
+// lmFreshSlice: v is a newly made slice, directly or as the result of a
+// package function all of whose returns are newly made slices.
+func lmFreshSlice(v ssa.Value, d int) bool {
+	switch x := v.(type) {
+	case *ssa.MakeSlice:
+		return true
+	case *ssa.Call:
+		g := ir.Callee(x.Call)
+		if g == nil || g.Blocks == nil || d > 2 {
+			return false
+		}
+		rets := ir.Returns(g)
+		if len(rets) == 0 {
+			return false
+		}
+		for _, r := range rets {
+			if len(r.Results) != 1 || !lmFreshSlice(r.Results[0], d+1) {
+				return false
+			}
+		}
+		return true
+	}
+	return false
 }
